@@ -288,7 +288,7 @@ def r5_missing_transitions(ctx, chk, rule="C09.1"):
     if cond != want_c:
         chk.violation(rule, f.where(), "'Missing transitions' is raised iff `%s`; specification: number of nodes built != number of states" % show(cond),
                       expected=show(want_c), found=show(cond), construct="init_states count guard")
-    elif name != "ValueError":
+    elif not ctx.prog.exc_is_a(name, "ValueError"):
         chk.violation("C09.3", f.where(), "'Missing transitions' raises %s" % name, expected="ValueError", found=name, construct="init_states raises %s" % name)
     elif not bad:
         chk.ok(rule, f.where(), "state without transitions: exactly one node per state with a non-empty transition list and a known player kind (whole table), "
@@ -301,7 +301,7 @@ def r6_no_final(ctx, chk, rule="C09.1"):
     fin = ("v", f.params[2])
     raises = [e for e in sx.final.effects if e[1] == "raise"]
     good = [e for e in raises if e[0] in (simp(("not", ("truthy", fin))), simp(("cmp", "==", C(0), ("call", "len", (fin,), ()))))
-            and e[2][0] == "call" and e[2][1] == "ValueError"]
+            and e[2][0] == "call" and ctx.prog.exc_is_a(e[2][1], "ValueError")]
     cfg = ctx.cfg(f)
     rd = C02.calls_of(f, "reverse_dfs")
     if good:
@@ -417,13 +417,13 @@ def r4_placement(ctx, chk, rule="C09.4"):
 def r5_batch_runner(ctx, chk, rule="C09.5", holder=None):
     run = ctx.func("conditionalrewards.py::run_games")
     f = holder or run
-    solve_calls = C02.calls_of(f, "solve")
+    solve_calls = shared.solve_calls_in(ctx, f)
     if not solve_calls and holder is None:
         # the solve call may live in a helper of the same module
         for g in ctx.cg.reachable([run]):
-            if g is not run and g.mod is run.mod and C02.calls_of(g, "solve"):
+            if g is not run and g.mod is run.mod and shared.solve_calls_in(ctx, g):
                 f = g
-                solve_calls = C02.calls_of(g, "solve")
+                solve_calls = shared.solve_calls_in(ctx, g)
                 break
     if len(solve_calls) != 1:
         chk.undecided(rule, f.where(), "%d solve() calls in run_games" % len(solve_calls))
